@@ -72,7 +72,7 @@ def interesting(inp):
 
 
 def replay_all(prog, groups, bindir, root, nworkers=8, log_mode=None, keep_failed=True, cmd_timeout=60, cats=None,
-               pad=0, watch=False):
+               pad=0, watch=False, jitter=False, repeat=1):
     """Replay history groups (list of lists of alternatives) in parallel.
     Returns (n_ok, failures) with failures = list of (alts, report, dir)."""
     os.makedirs(root, exist_ok=True)
@@ -84,7 +84,7 @@ def replay_all(prog, groups, bindir, root, nworkers=8, log_mode=None, keep_faile
         d = os.path.join(root, 'h%05d' % i)
         try:
             ok, rep = harness.replay_group(prog, alts, d, bindir, log_mode=log_mode, cmd_timeout=cmd_timeout, cats=cats,
-                                           pad=pad, watch=watch)
+                                           pad=pad, watch=watch, jitter=jitter)
         except Exception as ex:      # harness trouble is reported as a failure of that history
             import traceback
             ok, rep = False, [{'diffs': ['harness exception: %r %s' % (ex, traceback.format_exc()[-600:])]}]
@@ -93,7 +93,8 @@ def replay_all(prog, groups, bindir, root, nworkers=8, log_mode=None, keep_faile
         return i, alts, ok, rep, d
 
     with ThreadPoolExecutor(max_workers=nworkers) as ex:
-        for i, alts, ok, rep, d in ex.map(one, list(enumerate(groups))):
+        work = [(i * repeat + r, g) for i, g in enumerate(groups) for r in range(repeat)]
+        for i, alts, ok, rep, d in ex.map(one, work):
             if ok:
                 n_ok += 1
             else:
@@ -111,3 +112,31 @@ def sample(groups, n, seed):
     rnd = random.Random(seed)
     rnd.shuffle(keys)
     return [groups[k] for k in keys[:n]]
+
+
+def projection(step):
+    """what must not depend on the schedule: exit status, file contents, which targets were run, and per
+    row the flags, failure state, checksum and edge set (C07)"""
+    if step['a'] != 'cmd':
+        return None
+    sn = step['snap']
+    rows = {n: (r['gen'], r['ovr'], r['failed'] != -1, json.dumps(r['csum'], sort_keys=True), r['stamp'])
+            for n, r in sn['rows'].items()}
+    edges = sorted((e['t'], e['s'], e['mode'], e['del']) for e in sn['edges'])
+    if step['rc'] != 0 and not step['keep']:
+        # without --keep-going the set of targets started before the failure became known is
+        # legitimately timing dependent; only the failure itself is schedule independent
+        return json.dumps(['failed'])
+    return json.dumps([step['rc'], sorted(set(step['ran'])), sn['files'], rows, edges, sorted(sn['tmp'])], sort_keys=True)
+
+
+def schedule_dependent(groups):
+    """inputs whose specification alternatives disagree on the projection; returns list of (input, step index)"""
+    bad = []
+    for inp, alts in groups.items():
+        for i in range(len(alts[0])):
+            ps = set(projection(h[i]) for h in alts)
+            if len(ps) > 1:
+                bad.append((inp, i))
+                break
+    return bad
